@@ -93,7 +93,7 @@ _SEP = st.sampled_from([", ", "\n", "; ", " "])
 @st.composite
 def fallback_case(draw):
     reason = draw(st.sampled_from(["no_twprge", "no_section", "colon_required", "illegal_prior", "secword_without_number", "nothing"]))
-    cfg = dict(draw(configs.config_values(exclude=("wait_to_parse", "layout", "segment", "sec_within", "sec_colon_required", "sec_colon_cautious", "ocr_scrub"))))
+    cfg = dict(draw(configs.config_values(exclude=("wait_to_parse", "layout", "segment", "sec_colon_required", "sec_colon_cautious", "ocr_scrub"))))
     n = draw(st.integers(1, 3))
     parts = []
     if reason == "no_twprge":
@@ -186,10 +186,10 @@ SUBS = [
         render=lambda c: {"text": c["text"]["text"], "channel": c["channel"], "other": configs.to_text(c["cfg"])},
         n={"quick": 800, "thorough": 10000}, shards={"quick": 6, "thorough": 16}, text_keys=("text",),
         essential=tuple(f"channel={ch}" for ch in CHANNELS) + ("splittable",)),
-    Sub("fallback", oracle_fallback, strategy=lambda tier: fallback_case(), classes=lambda c: [f"reason={c['reason']}"] + (["segment"] if c["cfg"].get("segment") else []),
+    Sub("fallback", oracle_fallback, strategy=lambda tier: fallback_case(), classes=lambda c: [f"reason={c['reason']}"] + (["segment"] if c["cfg"].get("segment") else []) + (["sec_within"] if c["cfg"].get("sec_within") else []),
         render=lambda c: {"text": c["text"], "config": configs.to_text(c["cfg"]), "reason": c["reason"]},
         n={"quick": 800, "thorough": 10000}, shards={"quick": 4, "thorough": 16},
-        essential=("reason=no_twprge", "reason=no_section", "reason=colon_required", "reason=illegal_prior", "reason=secword_without_number", "segment")),
+        essential=("reason=no_twprge", "reason=no_section", "reason=colon_required", "reason=illegal_prior", "reason=secword_without_number", "segment", "sec_within")),
     Sub("no_double", oracle_no_double, strategy=lambda tier: parsing.CASE, classes=parsing.text_classes,
         nontrivial=lambda c: _last.get("n", 0) >= 1 and bool(c["cfg"]),
         render=parsing.render, n={"quick": 800, "thorough": 10000}, shards={"quick": 6, "thorough": 16}, text_keys=("text",)),
